@@ -41,3 +41,12 @@ reg("C16", "bounded-exhaustive enumeration of the request matrix against an expe
 reg("C17", "metamorphic testing under unit rescaling (L,T,K over +-6 decades) + term-level linearity",
     "A generated problem and its rescaled twin must give solutions related by exactly K (1e-9); homogeneity/additivity of every term in its coefficient field. Exploration; K4 reported as known finding.",
     TB + "; cases with non-zero gradients below 1e-12 excluded for TVD (K4), counted", "DESIGN.md 3 C17")
+reg("C09", "model-based stateful testing (Hypothesis RuleBasedStateMachine + generated programs) and bounded-exhaustive enumeration of edit/solve histories against a reference model and fresh-variable differential",
+    "Edit/solve histories are executed on the real objects and on a dict-of-arrays model; after every solve a fresh variable built from the model runs the same solve and full arrays are compared; invariants after every step (visible state equals model, clean variables have reference ghost values and a fresh cached boundary term). All sequences of length <=3 (4) over a 14-letter alphabet are enumerated; longer histories are sampled. K3 reported as known finding.",
+    TB + "; solves skipped while a BC face is degenerate; terms built from coefficient fields only", "DESIGN.md 3 C09")
+reg("C14", "generated expression trees evaluated against numpy (reference evaluation) with byte snapshots and cross-modification probes",
+    "Expression trees (depth<=3) over all operators and reflected operators, funceval/celleval/faceeval, copy(): values bitwise equal to numpy, operands byte-identical before/after, result BCs equal to the left-most operand's but unshared, reference ghost layer, no shared memory, edits do not leak either way. K6 reported as known finding.",
+    TB, "DESIGN.md 3 C14")
+reg("C15", "generated-input search with byte snapshots of every input before/after each public builder/solver, bit-identity of repeated calls, aliasing probes",
+    "Every public builder and solver on generated inputs: snapshots of mesh, coefficient variables, solution variable, BC arrays, cached boundary term and term objects before/after; repeated calls bit-identical; returned objects share no memory with inputs/mesh; time loop reusing terms equals loop rebuilding them.",
+    TB, "DESIGN.md 3 C15")
